@@ -277,7 +277,11 @@ let exec (s : t) (verbose : bool) (f : string array) (obs : string option) : str
   | "openbad" ->
     (match lock_attempt s.cur true with
      | (LInUse, _) -> "err inuse"
-     | (LFailed, _) -> "err failed"
+     | (LFailed, _) ->
+       (* the Open that fails on the corrupt data file has taken the lock and adopted a finished merge
+          before it reads the data files: that part of its work stays *)
+       let ((k1, _), _) = load_merge_files s.disk in
+       s.disk <- k1; "err failed"
      | (_, h) -> lock_close h; "ok")
   | "openrace" -> "done"
   | "concsched" ->
